@@ -346,7 +346,7 @@ func runC09(c *Ctx) {
 		}
 		if b, isB := ci.Call.Value.(*ssa.Builtin); isB && b.Name() == "append" {
 			if phi, isPhi := ci.Call.Args[0].(*ssa.Phi); isPhi && phi.Comment != "" {
-				slices[phi.Comment] = append(slices[phi.Comment], in)
+				slices[u.VarName(phi)] = append(slices[u.VarName(phi)], in)
 			}
 		}
 	})
